@@ -63,6 +63,9 @@ def generate(rng, tier):
             p["bound_frac"] = sorted(rng.random() for _ in range(p["ncpu"] - 1))
     case = {"world": p, "nout_arg": rng.choice(["explicit", "explicit", "minus1"]), "glob_seed": rng.getrandbits(32), "prior": None,
             "later": rng.choice([None] * 8 + ["full", "capped"])}
+    if case["nout_arg"] == "minus1" and rng.random() < 0.3:
+        # the simulation goes on: a newer output appears in the same directory and "the last output" is asked for again
+        case["newer"] = rng.choice([1, 2, 10])
     # the full load must not depend on what the dataset object was used for before (C15's concern, exercised here too)
     if rng.random() < 0.2:
         k = rng.choice(["level", "groups", "vars"])
@@ -157,6 +160,24 @@ def execute(case, stats):
                 V("meta", "time", {"repr": repr(t)[:100]})
             if case["nout_arg"] == "minus1" and not ds.meta["infile"].endswith("output_" + str(p["nout"]).zfill(5)):
                 V("meta", "nout-minus-one", {"infile": ds.meta["infile"]})
+        if case.get("newer") and case["nout_arg"] == "minus1" and not viol:
+            from sim.ramses import World
+
+            stats.inc("probe.last_output_asked_for_again_after_a_newer_one_appeared")
+            p2 = dict(p, nout=p["nout"] + case["newer"], wseed=p["wseed"] + 1, siblings=[], time=p["time"] * 1.5)
+            w2 = World(p2)
+            w2.write(disk.dir)
+            try:
+                ds2, _ = disk.load(nout=-1)
+            except Exception as e:
+                V("load-exception", "full-load@newer-output", {"error": core.scrub(f"{type(e).__name__}: {e}")[:300]})
+                ds2 = None
+            if ds2 is not None:
+                if not ds2.meta["infile"].endswith("output_" + str(p2["nout"]).zfill(5)):
+                    V("meta", "nout-minus-one@newer-output", {"infile": core.scrub(ds2.meta["infile"])[-40:], "want": p2["nout"]})
+                else:
+                    for cls, clause, detail in compare_full(ds2, w2):
+                        V(cls, clause + "@newer-output", detail)
     res["signature"] = core.digest(p)[:20]
     return res
 
@@ -227,3 +248,5 @@ def reductions(case, viol):
         yield dict(case, prior=None)
     if case.get("later"):
         yield dict(case, later=None)
+    if case.get("newer"):
+        yield {k: v for k, v in case.items() if k != "newer"}
